@@ -276,6 +276,9 @@ FIXED = [
     "was False while the writer encodes it); also C09 ('-type' hint honoured by record validation)",
     "fixed: property=C10 464d60e validate raised ValueError ('too many values to unpack') instead of returning False for a tuple "
     "datum that is not a (name, value) pair (validate((1, 2, 3), ['null', array<int>], raise_errors=False))",
+    "fixed: property=C08 1dd43b0 named types of different kinds matched by name alone: data written as enum X read with a reader "
+    "schema declaring record X raised KeyError('symbols'); data written as fixed X was returned unchanged to a reader expecting "
+    "enum/record X (no schema-resolution error)",
     "fixed: property=C18 6c01e0c read_decimal set the precision on a module-level decimal Context and then used it "
     "(schedule: A sets prec=9, B reads a precision-2 decimal, A resumes and returns 1.2E+6 for 1234567.89)",
 ]
